@@ -8,8 +8,8 @@ package doccomposer
 //   - a document with an id is refused; bytes without a supported action / without the action's value
 //     member are not a patch.
 // Bound: documents over 0..2 keys, 0..2 services, 0..2 also-known-as URIs (absent or non-empty
-// lists), 0..3 further members drawn from 6 names x 5 JSON values (nested objects, arrays, numbers,
-// strings with escapes, booleans); quick tier: every list combination x a seeded sample of 40 extra
+// lists), 0..3 further members drawn from 6 names x 9 JSON values (nested objects, arrays, numbers,
+// strings with escapes, HTML-sensitive characters and literal backslash-u text, booleans, null); quick tier: every list combination x a seeded sample of 40 extra
 // member sets, thorough tier: x 400.
 
 import (
@@ -70,7 +70,8 @@ func TestVerifBoundedRoundTrip(t *testing.T) {
 		map[string]interface{}{"k": []interface{}{1.5, "two", nil, true}, "o": map[string]interface{}{"deep": map[string]interface{}{"er": "v"}}},
 		[]interface{}{map[string]interface{}{"id": "inner"}, []interface{}{}},
 		"text with \"quotes\" and \\ and é \n newline",
-		float64(1e21), false,
+		float64(1e21), false, nil,
+		"a<b>&c", "back\\u0026slash \\u003c text", []interface{}{nil, "x & y"},
 	}
 	cases := 0
 	composer := New()
